@@ -3,7 +3,7 @@ import contextlib, io, json, logging, os, re
 from ..core import Violation
 
 ID = 'C11'
-MODULES = ['OFModel.Config.Grammar', 'OFModel.Config.Base', 'OFModel.Config.Classes']
+MODULES = ['OFModel.Config.Grammar', 'OFModel.Config.Base', 'OFModel.Config.IO', 'OFModel.Config.Webvis']
 RULE = ('(a) grammar functions: random strings over the grammar alphabet (",;>!= no- identifiers digits . e - quotes brackets, ASCII and Unicode blanks), '
         'structured-valid and malformed, fed to split_commas_maybe / json_getval / parse_topics (mapping True/False/None, max_topics None/1/2/3) / parse_options '
         'and to the Lean model; (b) render->parse round trips: valid topic/option lists rendered BY THE MODEL and parsed BY THE IMPLEMENTATION; '
@@ -20,8 +20,8 @@ TRUSTED = ['Python str.strip()/split(), re `^(?:no-)?[a-zA-Z_]\\w*(?:=|$)` and j
 
 CLASSES = ['Filter', 'Util', 'Recorder', 'VideoIn', 'VideoOut', 'ImageIn', 'ImageOut', 'MQTTOut', 'REST', 'Webvis']
 # classes whose C11_nf_<Class>/C11_idempotent_<Class> theorem is proved; the others are covered at differential level only
-CLASSES_PROVED = []
-CLASSES_MODELLED = []
+CLASSES_PROVED = ['Filter', 'VideoIn', 'ImageIn', 'VideoOut', 'ImageOut', 'Webvis']
+CLASSES_MODELLED = ['Filter', 'VideoIn', 'ImageIn', 'VideoOut', 'ImageOut', 'Webvis', 'Recorder', 'REST']
 
 
 # ------------------------------------------------------------------------------------------------ canonical forms
@@ -235,6 +235,438 @@ def expected_roundtrip(case):
     return {'r': [case['text'], canon_wire(case['opts'])]}
 
 
+# ------------------------------------------------------------------------------------------------ class-level cases
+
+def wire2py(w):
+    if isinstance(w, list): return [wire2py(v) for v in w]
+    if isinstance(w, dict):
+        if '__float__' in w: return float(w['__float__'])
+        if '__tuple__' in w: return tuple(wire2py(v) for v in w['__tuple__'])
+        return {k: wire2py(v) for k, v in w['__dict__']}
+    return w
+
+
+def get_class(name):
+    import importlib
+    mod = {'Filter': 'openfilter.filter_runtime.filter', 'Util': 'openfilter.filter_runtime.filters.util', 'Recorder': 'openfilter.filter_runtime.filters.recorder',
+           'VideoIn': 'openfilter.filter_runtime.filters.video_in', 'VideoOut': 'openfilter.filter_runtime.filters.video_out',
+           'ImageIn': 'openfilter.filter_runtime.filters.image_in', 'ImageOut': 'openfilter.filter_runtime.filters.image_out',
+           'MQTTOut': 'openfilter.filter_runtime.filters.mqtt_out', 'REST': 'openfilter.filter_runtime.filters.rest', 'Webvis': 'openfilter.filter_runtime.filters.webvis'}[name]
+    return getattr(importlib.import_module(mod), name)
+
+
+def sp(rng): return rng.choice(['', '', '', ' ', '  '])
+def sepj(rng, ch, items): return ''.join((sp(rng) + ch + sp(rng) if i else '') + it for i, it in enumerate(items))
+
+MQ_ADDRS = ['tcp://localhost', 'tcp://h:6000', 'ipc://p', 'tcp://10.0.0.1:5552', 'tcp://a?', 'tcp://b??']
+OUT_ADDRS = ['tcp://*', 'tcp://*:5552', 'ipc://q', 'tcp://127.0.0.1:7000']
+
+
+def gen_mq_sources(rng):
+    """1-4 zeromq sources with topic lists and '>' mappings: text form and list-of-str form"""
+    items = []
+    for _ in range(rng.randint(1, 4)):
+        it = rng.choice(MQ_ADDRS)
+        used_s, used_d = set(), set()
+        for _ in range(rng.choice([0, 0, 1, 2, 3])):
+            a, b = rng.choice(['main', 'a', 'b', 'c', '*', '']), rng.choice(['main', 'x', 'y', 'z', ''])
+            if (a or 'main') in used_s or (b or a or 'main') in used_d: continue
+            used_s.add(a or 'main'); used_d.add(b or a or 'main')
+            it += sp(rng) + ';' + sp(rng) + (a if not b or rng.random() < 0.5 and a == b else a + sp(rng) + '>' + sp(rng) + b)
+        items.append(it)
+    return sepj(rng, ',', items), [i.strip() for i in items]
+
+
+def gen_outputs(rng):
+    items = rng.sample(OUT_ADDRS, rng.randint(1, 3))
+    return sepj(rng, ',', items), list(items)
+
+
+def gen_base(rng, mal):
+    """keys handled by Filter.normalize_config, same in text and structured form"""
+    c = {'id': rng.choice(['f', 'filter_1', 'x'])}
+    if rng.random() < 0.3: c['exit_after'] = rng.choice([3, 2.5, '1:30', '@23:59', '1d:0:0:1', '90', True] + (['abc', '@nope', [1], {'a': 1}, '1:2:3:4:5'] if mal else []))
+    if rng.random() < 0.3: c['mq_log'] = rng.choice([True, False, 'all', 'pretty', 'none', 'image', 'data', 'metrics', None, 1, 0] + (['bogus', 2, [1], ''] if mal else []))
+    if rng.random() < 0.25: c['extra_metrics'] = rng.choice([[['a', 1]], {'b': 2}, [['a', 1], ['b', 'x'], ['a', 3]], [], {}, [('t', None)], None] + ([[['a']], 'ab', [1], 5, [[['u'], 1]], ['xy', 'ab']] if mal else []))
+    if rng.random() < 0.25: c['outputs_required'] = rng.choice(['a', 'a, b', ['a'], ' a ,b ', '', [], None, ('a', 'b')] + ([0, 5, {}] if mal else []))
+    if rng.random() < 0.15: c[rng.choice(['sources_balance', 'outputs_jpg', 'metrics_interval', 'environment'])] = rng.choice([True, None, 5, 'prod'])
+    return c
+
+
+def opt_text(rng, opts):
+    """options (key, python value, text) rendered as !k / !no-k / !k=text with whitespace variation"""
+    out = ''
+    for k, v, t in opts:
+        if v is True and rng.random() < 0.8: o = k
+        elif v is False and rng.random() < 0.8: o = 'no-' + k
+        else: o = k + rng.choice(['', '', ' ']).replace(' ', '') + '=' + sp(rng) + t
+        out += sp(rng) + '!' + sp(rng) + o
+    return out
+
+
+def pick_opts(rng, table, n):
+    ks = rng.sample(list(table), min(n, len(table)))
+    out = []
+    for k in ks:
+        v, t = rng.choice(table[k])
+        out.append((k, v, t))
+    return out
+
+B = [(True, 'true'), (False, 'false')]
+VIDEOIN_OPTS = {'bgr': B, 'sync': B, 'loop': B + [(3, '3'), (0, '0')], 'maxfps': [(10, '10'), (2.5, '2.5')], 'maxsize': [('640x480', '640x480'), ('1280+720C', '1280+720C')],
+                'resize': [('1280x720lin', '1280x720lin')], 'region': [('us-west-2', 'us-west-2')], 'expiration': [(7200, '7200')]}
+IMAGEIN_OPTS = {'loop': B + [(3, '3')], 'recursive': B, 'pattern': [('*.jpg', '*.jpg'), ('.*\\.png$', '.*\\.png$')], 'region': [('us-west-2', 'us-west-2')], 'maxfps': [(1.0, '1.0'), (2, '2')]}
+VIDEOOUT_OPTS = {'bgr': B, 'fps': [(True, 'true'), (15, '15'), (29.97, '29.97')], 'segtime': [(1, '1'), (0.5, '0.5'), ('1:30', '1:30'), ('5:00', '5:00'), (180, '180')],
+                 'crf': [(23, '23')], 'g': [(30, '30')], 'preset': [('ultrafast', 'ultrafast')]}
+IMAGEOUT_OPTS = {'bgr': B, 'format': [('png', 'png'), ('jpg', 'jpg')], 'quality': [(95, '95')], 'compression': [(6, '6')], 'zzz': [(1, '1')]}
+VIDEO_URIS = ['file://a.mp4', 'rtsp://u:p!w@h/s', 'rtsp://u:pw!@h:554/s', 'webcam://0', 'http://h/v.m3u8', 's3://bucket/video.mp4', 'rtsp://b.com', 'file:///data/x y.mp4']
+IMAGE_URIS = ['file:///tmp/i', 's3://b/p', 'gs://b/p', 'file://imgs']
+VOUT_URIS = ['file://o.mp4', 'rtsp://u:p@h:8554/s', 'file://x_%Y-%m-%d.mp4', 'rtsp://u:p!w@h/live', 'file://a']
+IOUT_URIS = ['file:///tmp/o_%d.jpg', 'file://o.png', 'file:///path/to/images_%Y%m%d_%H%M%S_%d.png', 'file:///other/path']
+
+
+def gen_io_items(rng, uris, table, item_key, unique_topics, mal, topics_pool=('main', 'a', 'b', 'c', 'camera2', 'face_*')):
+    """1-4 endpoint items: text form 'uri!opts;topic' and the documented structure {item_key, topic, options}"""
+    n = rng.randint(1, 4)
+    tps = rng.sample(list(topics_pool), n) if unique_topics else [rng.choice(topics_pool) for _ in range(n)]
+    texts, structs, forms = [], [], []
+    for i in range(n):
+        uri, tp = rng.choice(uris), tps[i]
+        opts = pick_opts(rng, table, rng.choice([0, 0, 1, 2, 3]))
+        t = uri + opt_text(rng, opts)
+        if tp != 'main' or rng.random() < 0.4: t += sp(rng) + ';' + sp(rng) + tp
+        st = {item_key: uri, 'topic': tp, 'options': {k: v for k, v, _ in opts}}
+        if rng.random() < 0.3 and not opts: del st['options']
+        if rng.random() < 0.2 and tp == 'main': del st['topic']
+        elif rng.random() < 0.1 and tp == 'main': st['topic'] = None
+        if mal:
+            r = rng.random()
+            if r < 0.15: t += ';extra'; st = None
+            elif r < 0.3: t = t.replace(uri, 'ftp://nope'); st[item_key] = 'ftp://nope'
+            elif r < 0.45: t = uri + '!bogus=1' + (';' + tp if tp != 'main' else ''); st = {item_key: uri, 'topic': tp, 'options': {'bogus': 1}}
+            elif r < 0.55: t = uri + ';' + tp + '>q'; st = None
+            elif r < 0.65: t = ''; st = None
+        texts.append(t); structs.append(st)
+    if mal and rng.random() < 0.2 and n > 1: texts[1] = texts[0]; structs[1] = structs[0]
+    return sepj(rng, ',', texts), [t.strip() for t in texts], (structs if all(s is not None for s in structs) else None)
+
+
+def gen_class_case(rng, cls, mal=False):
+    """-> {'cls', 'config' (text form), 'forms': [equivalent documented forms], 'mal'} all wire-encoded"""
+    base = gen_base(rng, mal and rng.random() < (0.9 if cls == 'Filter' else 0.4))
+    text, forms = dict(base), []
+    def form(**kw): forms.append({**base, **kw})
+    if cls == 'Filter':
+        st, sl = gen_mq_sources(rng); ot, ol = gen_outputs(rng)
+        text.update(sources=st, outputs=ot); form(sources=sl, outputs=ol); form(sources=st, outputs=ol)
+        if rng.random() < 0.2: text.pop('sources'); forms = [dict(f) for f in forms]; [f.pop('sources') for f in forms]
+    elif cls == 'Util':
+        st, sl = gen_mq_sources(rng); ot, ol = gen_outputs(rng)
+        xt, xs = [], []
+        for _ in range(rng.randint(0, 4)):
+            act = rng.choice(['flipx', 'flipy', 'flipboth', 'rotcw', 'rotccw', 'swaprgb', 'fmtrgb', 'fmtbgr', 'fmtgray', 'resize', 'maxsize', 'minsize', 'box'] + (['zoom', 'flipx 1'] if mal else []))
+            tps = rng.sample(['main', 'a', 'b', 'other'], rng.choice([0, 0, 1, 2]))
+            x = {'action': act.split(' ')[0]}
+            if tps: x['topics'] = tps
+            t = act.upper() if rng.random() < 0.1 else act
+            if act in ('resize', 'maxsize', 'minsize'):
+                w, h, asp, ip = rng.choice([640, 1280, 64]), rng.choice([480, 720, 48]), rng.choice(['x', '+']), rng.choice(['', '', 'n', 'near', 'lin', 'l', 'C', 'cub'] + (['q'] if mal else []))
+                t += ' ' + str(w) + sp(rng) + asp + sp(rng) + str(h) + sp(rng).replace('  ', ' ') + ip
+                x.update(width=w, height=h)
+                if asp != 'x': x['aspect'] = False
+                if ip: x['interp'] = ip.upper()[:1]
+            elif act == 'box':
+                bx = rng.choice([('0', '0', '.5', '.5', 'f00'), ('.1', '.2', '.3', '.4', 'aabbcc'), ('0.25', '0.', '1', '1.0', None), ('1', '2', '3', '4', 'FfF')])
+                t += ' ' + bx[0] + sp(rng) + '+' + sp(rng) + bx[1] + 'x' + sp(rng) + bx[2] + sp(rng) + 'x' + bx[3] + (sp(rng) + '#' + bx[4] if bx[4] else '')
+                x.update(x=float(bx[0]), y=float(bx[1]), width=float(bx[2]), height=float(bx[3]))
+                if bx[4]: x['color'] = tuple(int(ch * 2, 16) for ch in bx[4]) if len(bx[4]) == 3 else (int(bx[4][:2], 16), int(bx[4][2:4], 16), int(bx[4][4:], 16))
+            elif act == 'flipx 1' or act == 'zoom': x = None
+            for tp in tps: t += sp(rng) + ';' + sp(rng) + tp
+            xt.append(t); xs.append(x)
+        extra = {}
+        if rng.random() < 0.4: extra['log'] = rng.choice([None, True, False, 'pretty', 'data', 'all', 'none'] + (['zz', 3] if mal else []))
+        if rng.random() < 0.3: extra['sleep'] = rng.choice([None, 0, 1.5] + (['1'] if mal else []))
+        if rng.random() < 0.3: extra['maxfps'] = rng.choice([None, 10, 29.97] + ([[1]] if mal else []))
+        text.update(sources=st, outputs=ot, xforms=sepj(rng, ',', xt), **extra)
+        form(sources=sl, outputs=ol, xforms=[t.strip() for t in xt], **extra)
+        if all(x is not None for x in xs): form(sources=sl, outputs=ol, xforms=xs, **extra)
+    elif cls in ('VideoIn', 'ImageIn'):
+        ot, ol = gen_outputs(rng)
+        key, uris, table = ('source', VIDEO_URIS, VIDEOIN_OPTS) if cls == 'VideoIn' else ('source', IMAGE_URIS, IMAGEIN_OPTS)
+        it, il, istr = gen_io_items(rng, uris, table, key, True, mal)
+        extra = {k: rng.choice([True, False, None]) for k in rng.sample(['bgr', 'sync', 'loop'], rng.choice([0, 0, 1]))}
+        text.update(sources=it, outputs=ot, **extra); form(sources=il, outputs=ol, **extra)
+        if istr is not None: form(sources=istr, outputs=ol, **extra)
+        if mal and rng.random() < 0.15: text.pop('outputs')
+    elif cls in ('VideoOut', 'ImageOut'):
+        st, sl = gen_mq_sources(rng)
+        key, uris, table = ('output', VOUT_URIS, VIDEOOUT_OPTS) if cls == 'VideoOut' else ('output', IOUT_URIS, IMAGEOUT_OPTS)
+        it, il, istr = gen_io_items(rng, uris, table, key, False, mal)
+        text.update(sources=st, outputs=it); form(sources=sl, outputs=il)
+        if istr is not None: form(sources=sl, outputs=istr)
+        if mal and rng.random() < 0.15: text.pop('sources')
+    elif cls == 'Recorder':
+        st, sl = gen_mq_sources(rng)
+        uri = rng.choice(['file://rec.jsonl', 'file://rec.csv', 'file://r.json'] + (['http://x', 'rec.txt'] if mal else []))
+        opts = pick_opts(rng, {'append': B, 'x': [(1, '1')]}, rng.choice([0, 1, 1, 2]))
+        rules = [rng.choice(['+', '-', '+main', '-/meta/ts', '+other/meta/id', 'main/data', '-/meta', 'topic'] + (['-//x', '+a/'] if mal else [])) for _ in range(rng.randint(0, 4))]
+        extra = {}
+        if rules or rng.random() < 0.3: extra['rules'] = sepj(rng, ',', rules)
+        if rng.random() < 0.4: extra['empty'] = rng.choice([None, 0, 1, 2] + ([3, 'x'] if mal else []))
+        if rng.random() < 0.2: extra['flush'] = rng.choice([True, False])
+        outs = uri + opt_text(rng, opts) + (', file://second' if mal and rng.random() < 0.3 else '')
+        text.update(sources=st, outputs=outs, **extra)
+        ex2 = dict(extra)
+        if 'rules' in ex2: ex2['rules'] = [r for r in rules] if rules else ex2['rules']
+        if ', file://second' not in outs:
+            form(sources=sl, outputs=[outs.strip()], **ex2)
+            form(sources=sl, outputs=[(uri, {k: v for k, v, _ in opts})], **ex2)
+    elif cls == 'MQTTOut':
+        st, sl = gen_mq_sources(rng)
+        host, port, bt = rng.choice(['broker', 'h', '10.0.0.9', '']), rng.choice([1883, 1884, None]), rng.choice(['base', 'base_topic/', 'a/b', '', None])
+        gopts = pick_opts(rng, {'qos': [(0, '0'), (1, '1'), (2, '2')], 'retain': B + ([] if not mal else [(1, '1')])}, rng.choice([0, 0, 1, 2]))
+        maps_t, maps_s, dsts = [], [], set()
+        for _ in range(rng.choice([0, 1, 1, 2, 3])):
+            src_topic = rng.choice(['main', 'topic', 'topic2', 'other', None])
+            src_path = rng.choice([None, 'image', 'data', 'data/sub', 'data/sub/more'] + (['image/x', 'meta', 'data/'] if mal else []))
+            if src_topic is None and src_path is None and not mal: continue   # the empty mapping has no text form inside a comma list
+            dst = rng.choice([None, 'out', 'other_frames', 'd']) if src_path else None
+            eff = dst or (None if not src_path else 'frames' if src_path == 'image' else src_path.rsplit('/', 1)[-1])
+            if eff in dsts and not mal: continue
+            dsts.add(eff)
+            mo = pick_opts(rng, {'qos': [(0, '0'), (2, '2')], 'retain': B}, rng.choice([0, 0, 1, 2]))
+            t = (src_topic or '') + ('/' + src_path if src_path else '') + (sp(rng) + '>' + sp(rng) + dst if dst else '') + opt_text(rng, mo)
+            maps_t.append(t); maps_s.append({'dst_topic': dst, 'src_topic': src_topic, 'src_path': src_path, 'options': {k: v for k, v, _ in mo}})
+        addr = host + (':' + str(port) if port else '')
+        out = 'mqtt://' + addr + ('/' + bt if bt is not None else '') + opt_text(rng, gopts)
+        if mal and rng.random() < 0.3: out = out.replace('mqtt://', rng.choice(['tcp://', 'mqtt:/']))
+        sconf = {'mappings': maps_s}
+        if host: sconf['broker_host'] = host
+        if port: sconf['broker_port'] = port
+        if bt: sconf['base_topic'] = bt
+        sconf.update({k: v for k, v, _ in gopts})
+        extra = {}
+        if rng.random() < 0.2: extra['client_id'] = rng.choice(['cid', None])
+        if rng.random() < 0.2: extra['keepalive'] = 30
+        form(sources=sl, **sconf, **extra)
+        if rng.random() < 0.5:     # everything in `outputs`
+            text.update(sources=st, outputs=out + ''.join(sp(rng) + ';' + sp(rng) + m for m in maps_t), **extra)
+            if not maps_t: forms[-1].pop('mappings')
+        else:                      # broker in `outputs`, mappings as text
+            text.update(sources=st, outputs=out, mappings=sepj(rng, ',', maps_t), **extra)
+            form(sources=sl, outputs=[out.strip()], mappings=[m.strip() for m in maps_t], **extra)
+            if not maps_t: forms[0]['mappings'] = []
+        if mal and rng.random() < 0.2: text['base_topic'] = 'dup'
+    elif cls == 'REST':
+        ot, ol = gen_outputs(rng)
+        host, port = rng.choice(['0.0.0.0', '*', 'h', '']), rng.choice([8000, 9000, None])
+        bp = rng.choice([None, 'api', 'api/v1', 'my_base_path/', 'a/b/'] + ['/api', '//api//', '/', 'api//'])
+        eps_t, eps_s, seen = [], [], set()
+        for _ in range(rng.choice([0, 0, 1, 2, 3])):
+            methods = rng.choice([None, ['get'], ['GET', 'POST'], ['put', 'delete', 'get'], ['post']] + ([['patch']] if mal else []))
+            path = rng.choice([None, 'frames', 'test/{param}', 'x/y', '/lead'] + ['//x', '/'])
+            topic = rng.choice([None, 'main', 'other', 'rest/zub'])
+            k = {(m.upper(), (path or '').lstrip('/')) for m in (methods or ['GET', 'POST'])}
+            if k & seen and not mal: continue
+            seen |= k
+            t = ('(' + sepj(rng, '|', methods) + ')' + sp(rng) if methods else '') + (path or '') + (sp(rng) + '>' + sp(rng) + topic if topic else '')
+            e = {}
+            if methods: e['methods'] = list(methods)
+            if path: e['path'] = path
+            if topic: e['topic'] = topic
+            eps_t.append(t); eps_s.append(e)
+        src = 'http://' + host + (':' + str(port) if port else '') + ('/' + bp if bp is not None else '')
+        if rng.random() < 0.3:   # parameter style: no `sources`, host/port/base_path given directly; slashes around base_path are optional
+            text.update(outputs=ot, host=host or None, port=port, base_path=bp)
+            if bp and bp.strip('/') != bp and not bp.strip('/').count('//'): form(outputs=ol, host=host or None, port=port, base_path=bp.strip('/') or None)
+            return {'cls': cls, 'config': py2wire(text), 'forms': [] if mal else [py2wire(f) for f in forms], 'mal': mal}
+        text.update(outputs=ot, sources=src + ''.join(sp(rng) + ';' + sp(rng) + e for e in eps_t))
+        if rng.random() < 0.15:
+            rp = rng.choice(['/tmp', '.', '/nonexistent-dir-c11', '/tmp/'])
+            text['resource_path'] = rp; base['resource_path'] = rp
+        if rng.random() < 0.15: text['declared_fps'] = base['declared_fps'] = rng.choice([30, 12.5, None])
+        sconf = {'endpoints': eps_s if eps_s else [{}]}
+        if host: sconf['host'] = host
+        if port: sconf['port'] = port
+        if bp: sconf['base_path'] = bp
+        form(outputs=ol, **sconf)
+        if mal and rng.random() < 0.3: text['endpoints'] = []
+    elif cls == 'Webvis':
+        st, sl = gen_mq_sources(rng)
+        host, port = rng.choice(['0.0.0.0', 'h', '192.168.1.13', '']), rng.choice([8002, 6000, None])
+        out = 'http://' + host + (':' + str(port) if port else '') + rng.choice(['', '', '/'] + (['/path', 'x'] if mal else []))
+        extra = {}
+        if rng.random() < 0.2: extra['enable_json'] = rng.choice([True, False])
+        if rng.random() < 0.2: extra['sleep_interval'] = rng.choice([0.5, 2] + ([0, -1] if mal else []))
+        if rng.random() < 0.75:
+            text.update(sources=st, outputs=out, **extra)
+            sconf = {}
+            if host: sconf['host'] = host
+            if port: sconf['port'] = port
+            form(sources=sl, **sconf, **extra)
+        else:
+            text.update(sources=st, host=host or None, port=port, **extra); form(sources=sl, host=host or None, port=port, **extra)
+    if 'xforms' in text and not text['xforms']:          # an empty xforms is left as given ('' / []): not a normalisation target
+        text.pop('xforms'); [f.pop('xforms', None) for f in forms]
+    if mal and forms and rng.random() < 0.5:             # malformed stream, structured flavour: damage the most structured form and use it as the config
+        text = forms[-1]
+        for k in ('sources', 'outputs', 'xforms', 'mappings', 'endpoints'):
+            v = text.get(k)
+            if isinstance(v, list) and v and rng.random() < 0.7:
+                i = rng.randrange(len(v)); r = rng.random()
+                if r < 0.2: v[i] = rng.choice([5, None, True, ['x'], 2.5])
+                elif isinstance(v[i], dict) and r < 0.5: v[i] = {**v[i], 'options': rng.choice([None, {'params': None, 'zz': 1}, {'params': {'a': 1}, 'zz': 2, 'yy': 3}, {'segtime': 'x:y'}, {'segtime': ''}, 5, {'qos': 1, 'bogus': 2}])}
+                elif isinstance(v[i], dict) and r < 0.7: v[i] = {**v[i], 'topic': rng.choice([None, 5, ['a'], 'main'])}
+                elif isinstance(v[i], dict) and r < 0.85: v[i] = {k2: rng.choice([v2, None, 7]) for k2, v2 in v[i].items()}
+                elif r < 0.95: text[k] = tuple(v)
+                else: text[k] = rng.choice([5, True, {}, {'a': 1}, 0])
+    if mal: forms = []                                   # malformed stream: idempotence / error agreement with the model only
+    return {'cls': cls, 'config': py2wire(text), 'forms': [py2wire(f) for f in forms], 'mal': mal}
+
+
+def eval_env(cfg):
+    """outcomes of the pure validators, evaluated on the real code, handed to the model as parameters"""
+    from openfilter.filter_runtime.utils import parse_time_interval, parse_date_and_or_time
+    env = {}
+    ea = cfg.get('exit_after') if isinstance(cfg, dict) else None
+    if isinstance(ea, str):
+        try:
+            parse_date_and_or_time(ea[1:]) if ea.startswith('@') else parse_time_interval(ea)
+            env['exit_after'] = None
+        except Exception as e: env['exit_after'] = exc_name(e)
+    # every string that can reach parse_segtime: `segtime=...` inside text items and 'segtime' values of structured items
+    cands = set()
+    def walk(x):
+        if isinstance(x, str): cands.update(m.strip() for m in re.findall(r'segtime\s*=([^!;,]*)', x))
+        elif isinstance(x, dict):
+            if isinstance(x.get('segtime'), str): cands.add(x['segtime'])
+            for v in x.values(): walk(v)
+        elif isinstance(x, (list, tuple)):
+            for v in x: walk(v)
+    walk(cfg.get('outputs') if isinstance(cfg, dict) else None)
+    rp = cfg.get('resource_path') if isinstance(cfg, dict) else None
+    if isinstance(rp, str) and rp: env['isdir'] = [{'s': rp, 'abs': os.path.abspath(rp) if os.path.isdir(rp) else None}]
+    if cands:
+        from openfilter.filter_runtime.filters.video_out import parse_segtime
+        tbl = []
+        for s_ in sorted(cands):
+            try: tbl.append({'s': s_, 'ok': py2wire(parse_segtime(s_))})
+            except Exception as e: tbl.append({'s': s_, 'exc': exc_name(e)})
+        env['segtime'] = tbl
+    return env
+
+
+def untuple(c):
+    if isinstance(c, list): return [untuple(v) for v in c]
+    if isinstance(c, dict): return untuple(c['__tuple__']) if '__tuple__' in c else {k: untuple(v) for k, v in c.items()}
+    return c
+
+
+def drop_none(c):
+    """adict equality: a key holding None reads the same as a missing key"""
+    if isinstance(c, list): return [drop_none(v) for v in c]
+    if isinstance(c, dict): return {k: drop_none(v) for k, v in c.items() if v is not None}
+    return c
+
+
+_PROBE = {}
+def rest_probe():
+    """which REST behaviour the tree under test has (the model has both: `REST` = with the pending fixes, `REST:pinned` = without)"""
+    if not _PROBE:
+        REST = get_class('REST')
+        try: _PROBE['slashes'] = REST.normalize_config({'id': 'x', 'outputs': 'tcp://*', 'base_path': '/api'}).get('base_path') == 'api'
+        except Exception: _PROBE['slashes'] = False
+        try: REST.normalize_config({'id': 'x', 'outputs': 'tcp://*', 'endpoints': [{'path': 'p'}]}); _PROBE['dicts'] = True
+        except Exception: _PROBE['dicts'] = False
+    return _PROBE
+
+
+def diff_keys(a, b):
+    if isinstance(a, dict) and isinstance(b, dict) and '__tuple__' not in a and '__float__' not in a:
+        return sorted(k for k in set(a) | set(b) if J(a.get(k, '<absent>')) != J(b.get(k, '<absent>')))
+    return ['<value>']
+
+
+def run_class_impl(case):
+    """-> (observation, violations).  Observation: canonical first/second normalisation of the text form."""
+    import copy
+    cls = get_class(case['cls'])
+    viol = []
+    def norm(cfg):
+        with contextlib.redirect_stdout(io.StringIO()):
+            return cls.normalize_config(cfg)
+    cfg = wire2py(case['config'])
+    try: n1 = norm(copy.deepcopy(cfg))
+    except Exception as e: obs = {'exc': exc_name(e)}; n1 = None
+    if n1 is not None:
+        j1 = canon_py(n1)
+        obs = {'ok': j1}
+        # oracle 1: idempotence, on the object itself and on its plain-JSON copy (as it arrives from a file or the environment)
+        for how, arg in (('', n1), (':json-copy', plain_copy(n1))):
+            try:
+                j2 = canon_py(norm(arg))
+                if how: j2, j1c = untuple(j2), untuple(j1)     # a JSON copy has lists where the original has tuples
+                else: j1c = j1
+                if J(j2) != J(j1c):
+                    viol.append((f"{case['cls']}:not-idempotent{how}:" + ','.join(diff_keys(j1c, j2)), f'second normalisation differs in {diff_keys(j1c, j2)}: {J(j1c)[:300]} -> {J(j2)[:300]}'))
+            except Exception as e:
+                viol.append((f"{case['cls']}:second-pass-raises{how}:{exc_name(e)}", f'normalising the normalised config raises {type(e).__name__}: {e}'[:300]))
+    # oracle 2: every documented equivalent form normalises to the same result
+    fobs = []
+    for i, f in enumerate(case.get('forms') or []):
+        try: s1 = {'ok': canon_py(norm(wire2py(f)))}
+        except Exception as e: s1 = {'exc': exc_name(e)}
+        fobs.append(s1)
+        if J(drop_none(s1)) != J(drop_none(obs)):
+            if 'exc' in s1 and 'ok' in obs: key = f"{case['cls']}:struct-raises:{s1['exc']}"
+            elif 'ok' in s1 and 'exc' in obs: key = f"{case['cls']}:text-raises:{obs['exc']}"
+            elif 'exc' in s1: key = f"{case['cls']}:struct-raises:{s1['exc']}"
+            else: key = f"{case['cls']}:text-vs-struct:" + ','.join(diff_keys(obs['ok'], s1['ok']))
+            viol.append((key, f'text form {J(case["config"])[:200]} -> {J(obs)[:250]} but equivalent form #{i} {J(f)[:200]} -> {J(s1)[:250]}'))
+    return obs, viol, fobs
+
+
+def plain_copy(x):
+    """adict / tuples -> what json.loads(json.dumps(x)) would give, without going through floats' text"""
+    if isinstance(x, dict): return {k: plain_copy(v) for k, v in x.items() if not str(k).startswith('_')}
+    if isinstance(x, (list, tuple)): return [plain_copy(v) for v in x]
+    return x
+
+
+# ------------------------------------------------------------------------------------------------ docstring examples
+
+def docstring_vectors():
+    """the equivalences and examples the docstrings declare, read from the current source: [(key, callable -> violations)]"""
+    import ast
+    from openfilter.filter_runtime.filter import Filter
+    out = []
+    def example(fn, name):
+        m = re.search(r'Parse (\'.*?\') to (\(.*\))\.', fn.__doc__ or '')
+        if not m: return [(f'docstring:{name}:unparsed', 'docstring example not found')]
+        text, want = ast.literal_eval(m.group(1)), ast.literal_eval(m.group(2))
+        try:
+            with contextlib.redirect_stdout(io.StringIO()): got = fn(text)
+        except Exception as e: return [(f'docstring:{name}', f'{name}({text!r}) raises {type(e).__name__}: {e}; the docstring says it returns {want!r}')]
+        return [] if J(canon_py(list(got), False)) == J(canon_py(list(want), False)) else [(f'docstring:{name}', f'{name}({text!r}) returns {got!r}; the docstring says {want!r}')]
+    out += example(Filter.parse_topics, 'parse_topics') + example(Filter.parse_options, 'parse_options')
+    for cname, key, others in (('VideoIn', 'sources', {'outputs': 'tcp://*'}), ('VideoOut', 'outputs', {'sources': 'tcp://localhost'}), ('ImageOut', 'outputs', {'sources': 'tcp://localhost'})):
+        cls = get_class(cname)
+        m = re.search(r'Examples:\n(.*?)\n\s*(?:For \'options\' see below|`\w+` individual options)', cls.__doc__ or '', re.S)
+        parts = [re.sub(r"'\?:", "':", x.strip()) for x in m.group(1).split('is the same as')] if m else []
+        try: vals = [ast.literal_eval(x) for x in parts]
+        except Exception: vals = []
+        if len(vals) < 2:
+            out.append((f'docstring:{cname}:unparsed', 'docstring "is the same as" example not found')); continue
+        res = []
+        for v in vals:
+            try:
+                with contextlib.redirect_stdout(io.StringIO()): res.append({'ok': drop_none(canon_py(cls.normalize_config({'id': 'x', key: v, **others})))})
+            except Exception as e: res.append({'exc': exc_name(e) + ': ' + str(e)[:80]})
+        if any('exc' in r for r in res) or any(J(r) != J(res[0]) for r in res):
+            out.append((f'docstring:{cname}', f'{cname} docstring says these `{key}` are the same: {parts}; normalize_config gives {[J(r)[:160] for r in res]}'))
+    return out
+
+
 # ------------------------------------------------------------------------------------------------ run
 
 def run(ctx):
@@ -280,6 +712,39 @@ def run(ctx):
             res.note(c, bool(c.get('topics') or (c.get('opts') or {}).get('__dict__')))
             if J(o) != J(exp):
                 res.violations.append(Violation('roundtrip:' + c['fn'][3:], f'parse(render(x)) != x: rendered {rr["r"]!r} parsed to {o!r}', c))
+            else: res.traces_validated += 1
+
+    # (b2) the examples and equivalences written in the docstrings (read from the current source)
+    if not ctx.replay or ctx.replay.get('key', '').startswith('docstring:'):
+        for key, what in docstring_vectors():
+            count('docstring-example-fails'); res.violations.append(Violation(key, what, {'docstring': key}))
+        count('docstring-examples-checked')
+
+    # (c) class-level: idempotence and text == documented structure on the implementation; model differential for modelled classes
+    if not ctx.replay:
+        per = 6000 if ctx.thorough else (1200 if ctx.escalate else 300)
+        for cls in CLASSES:
+            ccases += [gen_class_case(rng, cls, mal=(i % 6 == 5)) for i in range(per)]
+    creqs, cidx = [], []
+    for c in ccases:
+        obs, viol, fobs = run_class_impl(c)
+        count(f"class:{c['cls']}:" + ('ok' if 'ok' in obs else obs['exc']))
+        res.note(c, 'ok' in obs and J(obs['ok']) != J(canon_wire(c['config'])))
+        for key, what in viol: res.violations.append(Violation(key, what, c))
+        if ctx.driver and c['cls'] in CLASSES_MODELLED:
+            mcls = c['cls']
+            if mcls == 'REST' and not rest_probe()['slashes']: mcls = 'REST:pinned'
+            for f, fo in [(c['config'], obs)] + list(zip(c.get('forms') or [], fobs)):      # the structured forms are model inputs too
+                if mcls.startswith('REST') and not rest_probe()['dicts'] and isinstance(wire2py(f).get('endpoints'), list) and wire2py(f)['endpoints']:
+                    count('class:REST:outside-model(plain-dict endpoints on a tree without the fix)'); continue
+                creqs.append({'op': 'c11.normalize', 'cls': mcls, 'config': f, 'env': eval_env(wire2py(f))}); cidx.append(({'cls': c['cls'], 'config': f, 'forms': []}, fo))
+    if creqs:
+        for (c, obs), m in zip(cidx, ctx.driver.batch(creqs)):
+            mm = {'ok': canon_wire(m['ok'])} if 'ok' in m else m
+            if isinstance(mm.get('ok'), dict): mm['ok'] = {k: v for k, v in mm['ok'].items() if not k.startswith('_')}
+            if mm.get('exc') == 'other' or has_opaque(mm):
+                count(f"class:{c['cls']}:outside-model"); continue
+            if J(mm) != J(obs): res.disagreements.append({'point': 'c11.normalize.' + c['cls'], 'case': c, 'impl': obs, 'model': mm})
             else: res.traces_validated += 1
 
     res.extra['input_distribution'] = dict(sorted(dist.items()))
